@@ -351,3 +351,4 @@ def any_reminder_list_renders(t1: int, d1: int, t2: int, d2: int, n: int):
     for t in list(GeckoReminderType):
         touch(rm.get_reminder(t))
     ensures("invalid-records-are-not-listed", len(rm.reminders) == len([r for r in recs if r[0] != GeckoReminderType.INVALID]))
+
